@@ -62,6 +62,18 @@ for _i, _v in enumerate(VARIANTS):
     _v["W"] = _st([_f("n", U8), _f("e", {"k": "e", "n": "E"}), _f("ea", {"k": "a", "t": {"k": "e", "n": "E"}, "len": ["expr", "n", ["id", "n"]]}), _f("f", {"k": "e", "n": "F"}), _f("t", U16)])
 
 
+IN_T = _st([_f("t", U8), _f("v", {"k": "a", "t": U8, "len": ["fixed", 2]})])
+for _i, _v in enumerate(VARIANTS):
+    # a NAMED structure used by several members (and as array element) of one structure
+    _v["O1"] = _st([_f("i", {"k": "ref", "n": "In"}), _f("j", {"k": "ref", "n": "In"}), _f("k", {"k": "a", "t": {"k": "ref", "n": "In"}, "len": ["fixed", 2]}), _f("e", U16 if _i else U8)])
+    # anonymous members whose fields are folded into the parent
+    _v["A"] = _st([_f("k", U8), _f(None, _st([_f("x", U16), _f("v", {"k": "a", "t": U8, "len": ["fixed", 2]})])), _f(None, _st([_f("w", U16), _f("b", {"k": "a", "t": U8, "len": ["fixed", 2]})])), _f("z", U8 if _i else U16)])
+    # a count that depends on a constant of THIS object
+    _v["QK"] = _st([_f("n", U8), _f("v", {"k": "a", "t": U8, "len": ["expr", "n + K", ["bin", "+", ["id", "n"], ["id", "K"]]]}), _f("t", U16)])
+UNION_TEXT = "union U { uint8 arr[4]; uint32 d; struct { uint16 lo; uint8 v[2]; } s; };\nstruct H { uint8 h; U u; uint8 t[2]; };\n"
+K_OF_VARIANT = [1, 2, 3]
+
+
 def enums_for(variant):
     be, bf = ENUM_BASES[variant]
     return [{"k": "enumdef", "n": "E", "kind": "enum", "base": be, "members": MEMBERS_E}, {"k": "enumdef", "n": "F", "kind": "flag", "base": bf, "members": MEMBERS_F}]
@@ -71,7 +83,7 @@ EXTRA = {"R": _st([_f("k", U16), _f("m", {"k": "a", "t": U32, "len": ["fixed", 2
 
 
 def defs_for(variant, extra=False):
-    d = enums_for(variant) + [{"k": "structdef", "n": n, "t": t} for n, t in VARIANTS[variant].items()]
+    d = [{"k": "define", "n": "K", "v": K_OF_VARIANT[variant]}, {"k": "structdef", "n": "In", "t": IN_T}] + enums_for(variant) + [{"k": "structdef", "n": n, "t": t} for n, t in VARIANTS[variant].items()]
     if extra:
         d += [{"k": "structdef", "n": n, "t": t} for n, t in EXTRA.items()]
     return d
@@ -85,9 +97,9 @@ def history(draw):
     n = draw(st.integers(8, 40))
     ninst = 0
     for _ in range(n):
-        k = draw(st.sampled_from(["default", "default", "kw", "kwpartial", "pospartial", "parse", "parse", "set", "mutate", "mutate", "mutate", "dump", "flip", "loadmore", "alias", "failparse", "fresh", "enumop", "enumop"]))
+        k = draw(st.sampled_from(["default", "default", "kw", "kwpartial", "pospartial", "parse", "parse", "scratch-union", "set", "mutate", "mutate", "mutate", "dump", "flip", "loadmore", "alias", "failparse", "fresh", "enumop", "enumop"]))
         c = draw(st.integers(0, ncs - 1))
-        tname = draw(st.sampled_from(["P", "P", "Q", "W"]))
+        tname = draw(st.sampled_from(["P", "P", "Q", "W", "O1", "A", "QK"]))
         if k in ("default", "kw", "kwpartial", "pospartial", "parse"):
             ops.append([k, c, tname, draw(st.binary(min_size=48, max_size=48)).hex()])
             ninst += 1
@@ -95,6 +107,8 @@ def history(draw):
             ops.append([k, draw(st.integers(0, ninst - 1)), draw(st.integers(0, 50)), draw(st.integers(0, 255))])
         elif k == "flip":
             ops.append(["flip", c, draw(st.sampled_from("<>"))])
+        elif k == "scratch-union":
+            ops.append(["scratch-union", c, draw(st.integers(0, 5)), draw(st.integers(1, 255))])
         elif k == "enumop":
             ops.append(["enumop", c, draw(st.sampled_from(["E", "F"])), draw(st.binary(min_size=4, max_size=4)).hex()])
         elif k in ("loadmore", "alias", "failparse", "fresh"):
@@ -112,33 +126,37 @@ def _paths(sem, t, v, kinds, path=()):
     if t["k"] != "st":
         return out
     for i, f in enumerate(t["fields"]):
-        key = f["name"]
+        key = refsem.fkey(f, i)
+        step = (key, f["name"])  # (key in the model, attribute on the library object; None = folded anonymous member)
         ft = sem.res(f["t"])
         val = v[key]
         if f.get("bits") or (ft["k"] == "s" and refsem.SCALARS[ft["n"]][0] == "int"):
-            out.append(("scalar" if not path else "nested", path + (key,), None, f))
+            out.append(("scalar" if not path else "nested", path + (step,), None, f))
         elif ft["k"] == "a" and isinstance(val, list):
-            out.append(("append", path + (key,), None, f))
+            out.append(("append", path + (step,), None, f))
             for j, e in enumerate(val):
                 et = sem.res(ft["t"])
                 if et["k"] == "s":
-                    out.append(("elem", path + (key,), j, f))
+                    out.append(("elem", path + (step,), j, f))
                 elif et["k"] == "st":
-                    out += [(k2 if k2 != "scalar" else "nested", p2, j2, f2) for k2, p2, j2, f2 in _paths(sem, et, e, kinds, path + (key, j))]
-        elif ft["k"] == "st":
-            out += _paths(sem, ft, val, kinds, path + (key,))
+                    out += [(k2 if k2 != "scalar" else "nested", p2, j2, f2) for k2, p2, j2, f2 in _paths(sem, et, e, kinds, path + (step, j))]
+        elif ft["k"] == "st" and ft["kind"] == "struct":
+            out += _paths(sem, ft, val, kinds, path + (step,))
     return out
 
 
 def _get(obj, path):
     for p in path:
-        obj = obj[p] if isinstance(p, int) else getattr(obj, p)
+        if isinstance(p, int):
+            obj = obj[p]
+        elif p[1] is not None:  # a folded anonymous member has no attribute of its own: its fields are on the parent
+            obj = getattr(obj, p[1])
     return obj
 
 
 def _mget(v, path):
     for p in path:
-        v = v[p]
+        v = v[p] if isinstance(p, int) else v[p[0]]
     return v
 
 
@@ -161,7 +179,7 @@ def run_case(case, ctx):
     for o in case["objs"]:
         cs = m.cstruct(endian=o["endian"])
         defs = defs_for(o["variant"])
-        r = lib(cs.load, libside.render(defs), compiled=o["compiled"])
+        r = lib(cs.load, libside.render(defs) + UNION_TEXT, compiled=o["compiled"])
         if isinstance(r, Err):
             raise Violation("definition-rejected", f"{libside.render(defs)}: {r}", r.where)
         objs.append({"cs": cs, "defs": defs, "endian": o["endian"], "compiled": o["compiled"], "variant": o["variant"], "loaded_more": False})
@@ -171,7 +189,7 @@ def run_case(case, ctx):
 
     def sem_of(c):
         o = objs[c]
-        return Sem(o["defs"], {"endian": o["endian"], "align": False, "ptr": "uint64"})
+        return Sem(o["defs"], {"endian": o["endian"], "align": False, "ptr": "uint64", "consts": {"K": K_OF_VARIANT[o["variant"]]}})
 
     def check_all(step):
         for idx, it in enumerate(inst):
@@ -184,7 +202,11 @@ def run_case(case, ctx):
                 )
         for c, o in enumerate(objs):
             sem = sem_of(c)
-            for tname in ("P", "Q", "W"):
+            for tname in ("U", "H"):
+                z = lib(lambda: getattr(o["cs"], tname)().dumps())
+                if isinstance(z, Err) or any(z):
+                    raise Violation("default-not-fresh", f"after step {step} {trace[-1]}: {tname}() of cstruct {c} dumps {z!r}, a default-constructed union / structure holding one is all zero; history: {trace}")
+            for tname in ("P", "Q", "W", "O1", "A", "QK", "In"):
                 T = getattr(o["cs"], tname)
                 z = lib(T)
                 want = refsem.canon(sem.default({"k": "ref", "n": tname}))
@@ -204,7 +226,7 @@ def run_case(case, ctx):
             node = {"k": "ref", "n": tname}
             T = getattr(o["cs"], tname)
             data = bytearray(bytes.fromhex(hexdata))
-            if tname in ("Q", "W"):
+            if tname in ("Q", "W", "QK"):
                 data[0] %= 5
             data = bytes(data)
             if k == "default":
@@ -222,8 +244,13 @@ def run_case(case, ctx):
                     f0 = sem.res(node)["fields"][0]
                     first = model[f0["name"]]
                     model = sem.default(node)
-                    model[f0["name"]] = first
-                    obj = lib(lambda: T(**{f0["name"]: first})) if k == "kwpartial" else lib(lambda: T(first))
+                    if isinstance(first, int):
+                        model[f0["name"]] = first
+                        obj = lib(lambda: T(**{f0["name"]: first})) if k == "kwpartial" else lib(lambda: T(first))
+                    else:  # the first member is a structure: given as a library value of its type
+                        model[f0["name"]] = first
+                        fv = libside.build_value(T.__fields__[0].type, sem, f0["t"], first)
+                        obj = lib(lambda: T(**{f0["name"]: fv})) if k == "kwpartial" else lib(lambda: T(fv))
                 else:
                     obj = lib(libside.build_value, T, sem, node, model)
             if isinstance(obj, Err):
@@ -252,9 +279,9 @@ def run_case(case, ctx):
                 continue
             if kind in ("scalar", "nested"):
                 holder = _get(it["obj"], path[:-1])
-                r = lib(setattr, holder, path[-1], val)
+                r = lib(setattr, holder, path[-1][1], val)
                 mh = _mget(it["model"], path[:-1])
-                mh[path[-1]] = val
+                mh[path[-1][0]] = val
             elif kind == "elem":
                 lst = _get(it["obj"], path)
                 r = lib(lst.__setitem__, j, val)
@@ -271,7 +298,9 @@ def run_case(case, ctx):
                 it["appended"] = True
             if isinstance(r, Err):
                 raise Violation("operation-raised", f"step {step} {kind} at {path}: {r}; history {trace}", r.where)
-            trace[-1] = [k, idx, kind, list(path), j, val]
+            trace[-1] = [k, idx, kind, [p if isinstance(p, int) else p[0] for p in path], j, val]
+            if len(path) >= 1 and any(not isinstance(p, int) and p[1] is None for p in path):
+                ctx.count("mutation:through-folded-anonymous-member")
             if it["origin"] in ("default", "kwpartial", "pospartial") and kind in ("elem", "nested", "append"):
                 flags["mutated_default_nested"] = True
         elif k == "dump":
@@ -291,6 +320,24 @@ def run_case(case, ctx):
                 continue
             if isinstance(d, Err) or d != want:
                 raise Violation("dump-depends-on-history", f"step {step}: instance #{idx} dumps {d!r}, reference encoding of its value under the current endianness {want.hex()}; history {trace}")
+        elif k == "scratch-union":
+            # an untracked default-constructed union (or structure holding one) is changed in place through an array
+            # member, a nested structure and its array: the next default construction (checked after every step) is zero
+            _, c, sel, val = op
+            cs_ = objs[c]["cs"]
+
+            def touch():
+                u = cs_.U() if sel % 2 == 0 else cs_.H().u
+                if sel in (0, 1):
+                    u.arr[sel] = val
+                elif sel in (2, 3):
+                    u.s.lo = val
+                else:
+                    u.s.v[sel - 4] = val
+
+            r = lib(touch)
+            if isinstance(r, Err):
+                raise Violation("operation-raised", f"step {step} changing a default union in place: {r}; history {trace}", r.where)
         elif k == "enumop":
             # the enum / flag type of THIS object, used directly: parse and dump follow this object's underlying type and
             # current endianness, whatever other objects with a same-named, same-membered enum did in between
@@ -368,4 +415,4 @@ def run_case(case, ctx):
 
 def stages(tier):
     q = tier == "quick"
-    return [HypStage("histories", history, examples=400 if q else 3000, shards=10 if q else 16)]
+    return [HypStage("histories", history, examples=320 if q else 3000, shards=10 if q else 16)]
